@@ -88,6 +88,17 @@ func c01Cases(env vk.Env) []vk.Case {
 		i := i
 		cs = append(cs, vk.Case{ID: fmt.Sprintf("doerner/%d", i), Run: func(tt *vk.T) { c01Doerner(tt, i, env) }})
 	}
+	for i := 0; i < env.Pick(2, 24); i++ {
+		i := i
+		for _, p := range []string{"frost", "frost-taproot", "doerner"} {
+			p := p
+			cs = append(cs, vk.Case{ID: fmt.Sprintf("siblings/%s/%d", p, i), Run: func(tt *vk.T) { c01Siblings(tt, p, i) }})
+		}
+	}
+	for i := 0; i < env.Pick(1, 6); i++ {
+		i := i
+		cs = append(cs, vk.Case{ID: fmt.Sprintf("siblings/cmp/%d", i), Run: func(tt *vk.T) { c01Siblings(tt, "cmp", i) }})
+	}
 	// CMP: path x material
 	paths := []string{"sign", "presign+online", "full"}
 	mats := []string{"fresh", "refreshed", "derived"}
@@ -463,4 +474,57 @@ func c01CMP(t *vk.T, n, th int, path, mat string, i int, env vk.Env) {
 			t.Sample(map[string]any{"path": "cmp/" + path, "n": n, "t": th, "signers": fx.IDStrings(S), "material": mat, "digest": dclass, "scheduler": sname})
 		}
 	}
+}
+
+// c01Siblings: two children are derived from the same parent material; signatures are then requested under the
+// first child, the second child and the parent itself, in a seeded order: every session must complete with a
+// signature valid under the key its participants report (a derivation describes a new key, it must not disturb
+// the material it came from).
+func c01Siblings(t *vk.T, proto string, i int) {
+	r := t.Rng
+	n, th := 3, 1
+	if proto == "doerner" {
+		n = 2
+	}
+	ids := fx.IDs(r, i%4, n)
+	var parent fx.Mat
+	var err error
+	switch proto {
+	case "frost":
+		parent, err = fx.NewFrostMat(r, ids, th, fx.Opt{})
+	case "frost-taproot":
+		parent, err = fx.NewTaprootMat(r, ids, th, fx.Opt{})
+	case "doerner":
+		parent, err = fx.NewDoernerMat(r, ids[0], ids[1], fx.Opt{})
+	case "cmp":
+		fx.InstallPrimeHook()
+		fx.SetPrimeOffset(uint64(r.Intn(1000)))
+		parent = fx.NewCMPMatDealt(ids, th)
+	}
+	if err != nil {
+		t.Inconclusive("keygen: %v", err)
+		return
+	}
+	i0, i1 := uint32(r.Intn(1<<31)), uint32(r.Intn(1<<31))
+	var c0, c1 fx.Mat
+	var e0, e1 error
+	if p, fr, txt := vk.Guard(func() { c0, e0 = parent.Derive(i0); c1, e1 = parent.Derive(i1) }); p {
+		t.Violation(proto+"|derive-panic|"+fr, "%s", txt)
+		return
+	}
+	if e0 != nil || e1 != nil {
+		t.Inconclusive("derivation refused: %v %v", e0, e1)
+		return
+	}
+	mats := []struct {
+		name string
+		m    fx.Mat
+	}{{"first-child", c0}, {"second-child", c1}, {"parent", parent}}
+	for _, j := range r.Perm(len(mats)) {
+		m := mats[j]
+		key := m.m.Shares()[0].GroupKey
+		c08Sign(t, r, m.m, nil, 0, key, fmt.Sprintf("%s after deriving two children from one parent: signing under the %s", proto, m.name), proto, n, th)
+		t.Obs("sibling_sequence_signatures|"+proto, 1)
+	}
+	t.Distinct("%s|siblings|%d", proto, i%4)
 }
